@@ -35,7 +35,8 @@ class C15:
     rule = ("programs = (a) the C12 history interpreter's generated operation sequences (construction, writes, copy/move construction and assignment, "
             "layout conversion, dump/load, destruction), (b) for every stack of the grammar cover: build from generated configurations, dump, copy, "
             "move, assign into default-constructed fields, load, rebuild, lookups at generated in-domain coordinates, (c) lookups through every "
-            "stack of the cover (C02 generator), (d) linear interpolation over arbitrary finite bit patterns (N=3, all M, mixed precisions). Each "
+            "stack of the cover (C02 generator), (d) linear interpolation over arbitrary finite bit patterns (N=3, all M, mixed precisions), (e) in the "
+            "two -DNDEBUG configurations also the harnesses of C04, C09, C10, C11, C14, C18 and C19 with their own oracles. Each "
             "program set runs in: -O1 + assertions + ASan + UBSan; -O2 -DNDEBUG; -O2 -DNDEBUG + UBSan; -O2 -DNDEBUG under valgrind memcheck (two "
             "shards of each set; all shards in the thorough tier, which adds -O0 + assertions + ASan + UBSan). Oracle: exit status 0 and no tool "
             "report everywhere; FNV digests of all values read and all dump bytes identical across configurations, per instantiation. "
@@ -45,8 +46,15 @@ class C15:
         st, _ = zoo.quick_stacks(seed)   # thorough: the whole quick cover in every configuration
         if tier == "quick":
             st = st[:28]   # the fixed catalogue plus the first stacks of the cover; the thorough tier takes all
-        bm = ["-mbmi2"] if zoo.cpu_has_bmi2() else []
-        return [
+        bm = zoo.isa_flags()
+        extra = []
+        if "ndebug" in cfg_name:
+            # the oracles of the cheap E1 harnesses must hold in the release configuration as well (a defect that only
+            # exists with NDEBUG, e.g. a side effect inside assert(), is invisible to their own assertion-enabled builds)
+            for tag, src, defs in (("nn", "prop_C04.cpp", []), ("affine", "prop_C09.cpp", []), ("clamp", "prop_C10.cpp", ["VF_GROUP=0"]), ("default", "prop_C11.cpp", []),
+                                   ("numeric", "prop_C18.cpp", []), ("ndmap", "prop_C19.cpp", []), ("curves", "prop_C14.cpp", [])):
+                extra.append(H(f"c15_{cfg_name}_{tag}", src, shards=8, flags=flags + bm, link_flags=link, defines=defs))
+        return extra + [
             H(f"c15_{cfg_name}_hist", "prop_C12.cpp", shards=16, flags=flags, link_flags=link),
             zoo.ZooH(f"c15_{cfg_name}_api", st, "C13", shards=16, flags=flags + bm, link_flags=link),
             zoo.ZooH(f"c15_{cfg_name}_lookup", st, "C02", shards=16, flags=flags + bm, link_flags=link),
@@ -86,8 +94,8 @@ class C15:
         jobs = []
         for name, flags, link, wrapper, subset in configs:
             for h in sets[name]:
-                if wrapper and h.name.endswith("_interp"):
-                    continue   # valgrind evaluates long double in 64 bits: the interpolation harness' own oracle needs the real thing
+                if wrapper and not h.name.endswith(("_hist", "_api", "_lookup")):
+                    continue   # valgrind evaluates long double in 64 bits: harnesses whose own oracle needs the real thing are not run under it
                 shards = range(h.shards)
                 if subset == "subset" and tier == "quick":
                     shards = [1, 9][: max(1, h.shards // 8)]
